@@ -161,7 +161,9 @@ def p10(ctx: Ctx):
         return p_, src, m.group(2)
 
     def collects(cls: str) -> Optional[str]:
-        """'all' / 'arrays' / 'scalars' : which DIMmed names the collector class records."""
+        """'all' / 'arrays' / 'scalars' / 'filtered': which DIMmed names the collector class records; None when the
+        way it walks `dim_vars` is not recognised (comprehension with an optional isinstance filter, or a loop whose
+        body records under isinstance / constant tests)."""
         fn = py.cls(cls).methods.get("visit_statement")
         if fn is None:
             return None
@@ -176,14 +178,50 @@ def p10(ctx: Ctx):
                 if "BasicVar" in t and "not" not in t:
                     return "scalars"
                 return "filtered"
+        for n in ast.walk(fn):
+            if isinstance(n, ast.For) and "dim_vars" in unparse(n.iter) and isinstance(n.target, ast.Name):
+                v_ = n.target.id
+                rec = {"arrays": False, "scalars": False}
+
+                def records(stmts) -> bool:
+                    return any(isinstance(c, ast.Call) and isinstance(c.func, ast.Attribute) and c.func.attr in ("append", "add") for s_ in stmts for c in ast.walk(s_))
+
+                def walk_body(stmts, could):
+                    """could: kinds of entry that can reach these statements."""
+                    for s_ in stmts:
+                        if isinstance(s_, ast.If):
+                            t_ = s_.test
+                            if isinstance(t_, ast.Constant):
+                                walk_body(s_.body if t_.value else s_.orelse, could)
+                                continue
+                            if isinstance(t_, ast.Call) and getattr(t_.func, "id", "") == "isinstance" and len(t_.args) == 2 and unparse(t_.args[0]) == v_ and isinstance(t_.args[1], ast.Name):
+                                k_ = {"BasicArrayRef": "arrays", "BasicVar": "scalars"}.get(t_.args[1].id)
+                                if k_ is not None:
+                                    walk_body(s_.body, could & {k_})
+                                    walk_body(s_.orelse, could - {k_})
+                                    continue
+                            return "?"
+                        elif records([s_]):
+                            for k_ in could:
+                                rec[k_] = True
+                    return None
+
+                if walk_body(n.body, {"arrays", "scalars"}) == "?":
+                    return "filtered"
+                if rec["arrays"] and rec["scalars"]:
+                    return "all"
+                if rec["arrays"]:
+                    return "arrays"
+                if rec["scalars"]:
+                    return "scalars"
         return None
 
     al, src, attr = source_of("StrVarAllocatorVisitor", "dimmed_var_names")
     kind = collects(src.cls) if src is not None else "nothing"
-    kind = kind or "nothing"
     ok = kind == "all"
-    ctx.ob(
+    ctx.idiom(
         "StrVarAllocatorVisitor<-all-dimmed-names",
+        kind is not None,
         ok,
         "" if ok else f"StrVarAllocatorVisitor excludes the names collected by `{src.cls}`, which records only {kind}: a string scalar that the source DIMs is declared a second time by the allocator (with the default size, overriding a configured one)",
         file=COMPILER_REL,
@@ -191,15 +229,15 @@ def p10(ctx: Ctx):
         witness="" if ok else "10 DIM A$ / 20 A$=\"X\" with -s 80",
     )
     dl, src2, attr2 = source_of("DeclareImplicitArraysVisitor", "dimmed_var_names")
-    kind2 = (collects(src2.cls) if src2 is not None else "nothing") or "nothing"
+    kind2 = collects(src2.cls) if src2 is not None else "nothing"
     ok2 = kind2 in ("all", "arrays")
-    ctx.ob("DeclareImplicitArraysVisitor<-dimmed-arrays", ok2, "" if ok2 else f"DeclareImplicitArraysVisitor excludes the names collected by `{src2.cls}` ({kind2}): arrays the source DIMs are declared again with bound 10", file=COMPILER_REL, line=dl.ctor.lineno)
+    ctx.idiom("DeclareImplicitArraysVisitor<-dimmed-arrays", kind2 is not None, ok2, "" if ok2 else f"DeclareImplicitArraysVisitor excludes the names collected by `{src2.cls}` ({kind2}): arrays the source DIMs are declared again with bound 10", file=COMPILER_REL, line=dl.ctor.lineno)
     # the pre-initialiser skips every DIMmed name (DIM itself creates and clears them)
-    vk = collects("VarInitializerVisitor") or "nothing"
+    vk = collects("VarInitializerVisitor")
     vi = py.cls("VarInitializerVisitor").properties.get("assignment_lines")
-    diff_ok = vi is not None and ast_contains(vi, "self._vars - self._dimmed_var_names")
+    diff_ok = vi is not None and (ast_contains(vi, "self._vars - self._dimmed_var_names") or ast_contains(vi, "self._vars.difference(self._dimmed_var_names)"))
     okv = vk == "all" and diff_ok
-    ctx.ob("VarInitializerVisitor:skips-dimmed-names", okv, "" if okv else f"VarInitializerVisitor records {vk} of the DIMmed names / no longer subtracts them: a variable the source DIMs is also assigned in the prologue, i.e. used before its DIM", file=VISITORS_REL, line=py.cls("VarInitializerVisitor").node.lineno)
+    ctx.idiom("VarInitializerVisitor:skips-dimmed-names", vk is not None, okv, "" if okv else f"VarInitializerVisitor records {vk} of the DIMmed names / no longer subtracts them: a variable the source DIMs is also assigned in the prologue, i.e. used before its DIM", file=VISITORS_REL, line=py.cls("VarInitializerVisitor").node.lineno)
     # the source pass has run before its set is read
     for user, s_ in ((al, src), (dl, src2)):
         if s_ is None:
@@ -355,13 +393,28 @@ def p3(ctx: Ctx):
         if isinstance(n, ast.Call) and call_name(n) == "add_argument":
             flags = [a.value for a in n.args if isinstance(a, ast.Constant) and isinstance(a.value, str)]
             kw = {k.arg: k.value for k in n.keywords if k.arg}
-            rec = {"flags": flags, "dest": _dest(flags, kw), "kw": kw, "line": n.lineno}
+            if not flags or any(isinstance(a, ast.Starred) for a in n.args) or any(k.arg is None for k in n.keywords):
+                # options registered from a table (`add_argument(*names, **options)`): the flags are data, not code
+                raise AnalysisError("P3", "add_argument", f"the command-line options are not declared by literal add_argument calls (line {n.lineno}): cannot map flags to options")
+            rec = {"flags": flags, "dest": _dest(flags, kw), "kw": kw, "line": n.lineno, "node": n}
             if flags and flags[0].startswith("-"):
                 for f in flags:
                     args_by_flag[f] = rec
             else:
                 positionals.append(rec)
-    positionals.sort(key=lambda r: r["line"])
+    # source order = depth-first order of the (possibly inlined) syntax tree; line numbers of inlined code coincide
+    order_: Dict[int, int] = {}
+
+    def _dfs(n_):
+        order_[id(n_)] = len(order_)
+        for c_ in ast.iter_child_nodes(n_):
+            _dfs(c_)
+
+    for f_ in reach:
+        _dfs(f_)
+    for r_ in positionals:
+        r_["order"] = order_.get(id(r_["node"]), 0)
+    positionals.sort(key=lambda r: r["order"])
     call = next((n for n in walk_no_nested(fn) if isinstance(n, ast.Call) and call_name(n) == "convert_file"), None)
     ctx.need(call is not None, "start", "call of convert_file(...) not found")
     ns = None  # name of the parsed-args namespace
@@ -759,7 +812,14 @@ def p7(ctx: Ctx):
     okt = len(tests) == 1 and re.fullmatch(r"isinstance\(\w+,\s*BasicHbuffStatement\)", unparse(tests[0].test)) is not None
     sets = [n for n in ast.walk(vs) if isinstance(n, ast.Assign) and is_self_attr(n.targets[0]) and isinstance(n.value, ast.Constant)]
     oks = okt and len(sets) == 1 and sets[0].value.value is True and any(s is sets[0] for s in ast.walk(tests[0]))
-    ctx.ob("has_hbuff<=>BasicHbuffStatement", oks, "" if oks else "the HBUFF flag is not set exactly under isinstance(statement, BasicHbuffStatement)", file=VISITORS_REL, line=vs.lineno)
+    # or-accumulation: flag = flag or isinstance(statement, BasicHbuffStatement) / flag |= isinstance(...)
+    acc = [n for n in ast.walk(vs) if (isinstance(n, ast.Assign) and is_self_attr(n.targets[0]) and isinstance(n.value, ast.BoolOp) and isinstance(n.value.op, ast.Or)) or (isinstance(n, ast.AugAssign) and is_self_attr(n.target) and isinstance(n.op, ast.BitOr))]
+    if not oks and acc and not tests:
+        parts_ = acc[0].value.values if isinstance(acc[0], ast.Assign) else [acc[0].value]
+        tgt_ = unparse(acc[0].targets[0] if isinstance(acc[0], ast.Assign) else acc[0].target)
+        others = [unparse(x) for x in parts_ if unparse(x) != tgt_]
+        oks = len(others) == 1 and re.fullmatch(r"isinstance\(\w+,\s*BasicHbuffStatement\)", others[0]) is not None
+    ctx.idiom("has_hbuff<=>BasicHbuffStatement", bool(tests) or bool(acc), oks, "" if oks else "the HBUFF flag is not set exactly under isinstance(statement, BasicHbuffStatement)", file=VISITORS_REL, line=vs.lineno)
     init = pv.methods.get("__init__")
     okf = init is not None and any(isinstance(n, ast.Assign) and is_self_attr(n.targets[0]) and isinstance(n.value, ast.Constant) and n.value.value is False for n in ast.walk(init))
     ctx.ob("has_hbuff:initially-false", okf, "" if okf else "the HBUFF flag does not start as False", file=VISITORS_REL, line=pv.node.lineno)
@@ -924,12 +984,16 @@ def _effects(py, cls: str) -> Dict[str, int]:
         params = {a.arg for a in fn.args.args[1:]}
         derived = set(params)
         # locals bound from parameters (for x in statement.rhs_list, enumerate(...))
-        for n in ast.walk(fn):
-            if isinstance(n, (ast.For, ast.comprehension)):
-                if names_loaded(n.iter) & derived:
-                    for t in ast.walk(n.target):
-                        if isinstance(t, ast.Name):
-                            derived.add(t.id)
+        for _round in range(3):
+            for n in ast.walk(fn):
+                if isinstance(n, (ast.For, ast.comprehension)):
+                    if names_loaded(n.iter) & derived:
+                        for t in ast.walk(n.target):
+                            if isinstance(t, ast.Name):
+                                derived.add(t.id)
+                # plain local aliases of (parts of) the program objects: rhs = statement.exp
+                if isinstance(n, ast.Assign) and len(n.targets) == 1 and isinstance(n.targets[0], ast.Name) and isinstance(n.value, (ast.Attribute, ast.Subscript, ast.Name)) and names_loaded(n.value) & derived:
+                    derived.add(n.targets[0].id)
         for n in ast.walk(fn):
             if isinstance(n, (ast.Assign, ast.AugAssign)):
                 tg = n.targets if isinstance(n, ast.Assign) else [n.target]
@@ -938,6 +1002,11 @@ def _effects(py, cls: str) -> Dict[str, int]:
                         out[f"store:{t.attr}"] = n.lineno
                     if isinstance(t, ast.Subscript) and names_loaded(t.value) & derived:
                         base = t.value
+                        if isinstance(base, ast.Name):
+                            # a local alias of a list of the program: report the list it stands for
+                            from .pyast import resolve_alias as _ra
+
+                            base = _ra(fn, base)
                         nm = base.attr if isinstance(base, ast.Attribute) else unparse(base)
                         out[f"store:{nm}[]"] = n.lineno
             if isinstance(n, ast.Call) and isinstance(n.func, ast.Attribute) and names_loaded(n.func.value) & derived:
@@ -948,7 +1017,8 @@ def _effects(py, cls: str) -> Dict[str, int]:
                     out[f"call:{n.func.attr}"] = n.lineno
             if isinstance(n, ast.Delete):
                 for t in n.targets:
-                    if names_loaded(t) & derived:
+                    obj_ = t.value if isinstance(t, (ast.Subscript, ast.Attribute)) else t
+                    if names_loaded(obj_) & derived:  # (the object deleted from - not names that only occur in the index)
                         out["delete"] = n.lineno
     return out
 
@@ -990,10 +1060,24 @@ def e6(ctx: Ctx):
     ctx.ob("BasicLine.set_is_referenced:only-flag", stores == {"_is_referenced"}, "" if stores == {"_is_referenced"} else f"set_is_referenced writes {sorted(stores)}", file=sr[0].module, line=sr[1].lineno)
     # the zero filter only looks at line 0; the full filter marks by membership
     for cls, needs_zero in (("LineZeroFilterVisitor", True), ("LineNumberFilterVisitor", False)):
-        vl = py.cls(cls).methods.get("visit_line")
-        ctx.need(vl is not None, f"{cls}.visit_line", "not found")
+        rvl = py.resolve_method(cls, "visit_line")
+        ctx.need(rvl is not None, f"{cls}.visit_line", "not found")
+        vl = rvl[1]
         src = unparse(vl)
         member = re.search(r"set_is_referenced\(\s*\w+\.num\s+in\s+self\._references\s*\)", src) is not None
+        guards = [n for n in ast.walk(vl) if isinstance(n, ast.If)]
+        # a guard through an overridable hook (`if self._is_candidate(line)`) is judged on the hook each class provides
+        hooks = [g.test.func.attr for g in guards if isinstance(g.test, ast.Call) and isinstance(g.test.func, ast.Attribute) and isinstance(g.test.func.value, ast.Name) and g.test.func.value.id == "self"]
+        if hooks and len(guards) == 1:
+            hk = py.resolve_method(cls, hooks[0])
+            rets = [r_.value for r_ in ast.walk(hk[1]) if isinstance(r_, ast.Return) and r_.value is not None] if hk else []
+            if len(rets) == 1:
+                rt = unparse(rets[0]).replace(" ", "")
+                zero = re.fullmatch(r"\w+\.num==0", rt) is not None
+                always = rt == "True"
+                ok = member and (zero if needs_zero else always)
+                ctx.ob(f"{cls}:membership", ok, "" if ok else f"`{cls}` marks lines under `{unparse(rets[0])}`: the flag has to be `line.num in references`" + (" only for line 0" if needs_zero else " for every line"), file=VISITORS_REL, line=vl.lineno)
+                continue
         zero = re.search(r"if\s+\w+\.num\s*==\s*0\s*:", src) is not None
-        ok = member and (zero if needs_zero else not re.search(r"\bif\b", src))
-        ctx.ob(f"{cls}:membership", ok, "" if ok else f"`{cls}.visit_line` does not set the flag to `line.num in references`" + (" only for line 0" if needs_zero else " for every line"), file=VISITORS_REL, line=vl.lineno)
+        ok = member and (zero if needs_zero else not guards)
+        ctx.idiom(f"{cls}:membership", member or bool(guards), ok, "" if ok else f"`{cls}.visit_line` does not set the flag to `line.num in references`" + (" only for line 0" if needs_zero else " for every line"), file=VISITORS_REL, line=vl.lineno)
